@@ -382,6 +382,36 @@ def derive_impl(item_text, trait, name):
     return f"impl {trait} for {name} {{\n    {sig} {{\n{body}\n    }}\n}}"
 
 
+def count_loops(text):
+    """loop statements in a piece of Rust text (`for` of an impl header or a HRTB does not count)"""
+    t = rscan.tokenize(text)
+    n = 0
+    for x in range(len(t)):
+        if t[x].kind != "id" or t[x].text not in ("for", "while", "loop"):
+            continue
+        if x > 0 and t[x - 1].text in (".", "::"):
+            continue
+        if t[x].text == "for":
+            # a for loop has `in` before its body
+            y, ok = x + 1, False
+            while y < len(t):
+                if t[y].kind == "open":
+                    if t[y].text == "{":
+                        break
+                    y = t[y].mate + 1
+                    continue
+                if t[y].kind == "id" and t[y].text == "in":
+                    ok = True
+                    break
+                if t[y].text == ";":
+                    break
+                y += 1
+            if not ok:
+                continue
+        n += 1
+    return n
+
+
 class Block:
     def __init__(self, file, path, tline):
         self.file, self.path, self.tline = file, path, tline
@@ -482,6 +512,7 @@ def emit_block(blk, rel, out_lines, meta):
         wrap_head = None
     source_text = text
     record["panic_sites"] = panic_sites(text) if r.kind in ("fn", "closure", "impl") else {}
+
     # ---- rewrites
     for d, arg, payload, tl in blk.subs:
         if d == "rewrite":
@@ -512,6 +543,8 @@ def emit_block(blk, rel, out_lines, meta):
             record["rewrites"].append({"rewrite": "R2 visibility", "sites": [{"from": "(private)", "to": "pub"}]})
             text = text[:toks[k].start] + "pub " + text[toks[k].start:]
     rewritten = text
+    record["loops"] = count_loops(text)
+    record["loops_annotated"] = sum(1 for d_, a_, p_, t_ in blk.subs if d_ == "loop")
     # ---- insertions: list of (offset, text, order)
     ins = []
     label_at = []   # (offset, index in payload text lines)
